@@ -466,7 +466,9 @@ func Supervise(c *SuperCfg) int {
 		}
 		nviol++
 		if reported >= 6 {
-			continue // enough replay files; the count is still reported
+			// enough replay files; further signatures are listed without one
+			fmt.Printf("  (further violation, no replay file written) signature: %s (%d evaluations, first in run %d)\n", sig, a.violCount[sig], v.Plan.Run)
+			continue
 		}
 		reported++
 		plan := v.Plan
